@@ -27,7 +27,7 @@ n = len(metas)
 missed = [m["id"] for m in metas if not m["reported_by"]]
 text = """## 11. Seeded changes and which checks catch them
 
-%d changes were produced by 140 fresh sub-agents in seven rounds of 20 (one agent per property and round). Round 1: three
+%d changes were produced by 160 fresh sub-agents in eight rounds of 20 (one agent per property and round). Round 1: three
 changes each, free choice. Round 2: two each, defects in the logic *around* the arithmetic - guards, dispatch, special
 cases, canonical form, configuration - rather than slips inside digit loops. Round 3: two each, changes that look like
 maintenance work - fast paths, refactors, rerouted API forms, type or cfg changes, std helpers with different edge
@@ -38,11 +38,15 @@ because "the caller already did" (the style the earlier misses had in common). R
 against the final machinery as a fresh estimate: 27 of its 40 were reported by the own property's check before anything was
 changed for them, 33 after the corrections listed at the end of this section. Round 7: the same once more after those
 corrections: 33 of 40 reported fresh, nothing changed for them afterwards (the C08 agent of this round also reported defect D7
-of section 5 in the unmodified crate). Each agent got only the property text and a
+of section 5 in the unmodified crate). Round 8: free choice with the request that at least one change per agent is not a
+local slip - two cooperating edits that each look fine alone, a shared helper or macro that only one rare caller is sensitive
+to, a state-dependent sequence of operations, or a difference confined to one build configuration: 27 of 40 reported fresh
+by the own property's check, 34 after the corrections listed at the end of this section (four of them attribution only: the
+finding existed under a sibling property). Each agent got only the property text and a
 private worktree; every change compiles, passes the 165 baseline tests and comes with a demonstration that fails with the
 change and passes without. Each was re-confirmed here in a scratch copy (`nbsa/confirm_seed.sh`: demo on the clean tree,
 patch, demo again - also `--release` when the demo asks for it - then the whole suite) before being kept under
-`/verif/seeded/<Cxx-k>/` (k = 1..3 round 1, 4..5 round 2, 6..7 round 3, 8..9 round 4, 10..11 round 5, 12..13 round 6, 14..15 round 7) with `patch.diff`, `demo.rs`,
+`/verif/seeded/<Cxx-k>/` (k = 1..3 round 1, 4..5 round 2, 6..7 round 3, 8..9 round 4, 10..11 round 5, 12..13 round 6, 14..15 round 7, 16..17 round 8) with `patch.diff`, `demo.rs`,
 `notes.md`, `meta.json`. `nbsa/seedrun.sh <patch>` applies a change to a scratch copy and runs every claimed check;
 `meta.json.reported_by` is its output on the final machinery. Independent agents sometimes hit on the same edit (the
 `powsign` simplification, `BigInt::set_bit` without `normalize()`, `RandomBits` bypassing `gen_bigint`, `monty_modpow`'s
@@ -64,11 +68,16 @@ branch-free digit classifier that accepts two more characters, a new `nth` overr
 steps or routed through the debug-asserting `add2`, a `bits() >> 5` length in Serialize (reported as undecided), the
 negative-power-of-two test of `to_signed_bytes_*` reading one digit, `unwrap_or(MAX)` in a scalar remainder; from round 7:
 Toom-3 split lengths without their clamps, a case-fold classifier that accepts control characters, the big-base loop guard of
-`to_radix_digits_le` by digit count, an early break in `bitand_neg_neg`, a `bits() > MAX.count_ones()` early reject that
-excludes iN::MIN, an early-out of `assign_from_slice` on a zero top word, `leading_zeros() <= 32` for "high half is zero".
-Five more
-(C07-6, C10-6, C07-11, C13-2, C13-11) are bodies the abstract interpreter cannot decide; they were reported while "undecided"
-made a check fail and are notes since section 12.4.
+`to_radix_digits_le` by digit count, a `bits() > MAX.count_ones()` early reject that
+excludes iN::MIN, an early-out of `assign_from_slice` on a zero top word, `leading_zeros() <= 32` for "high half is zero";
+from round 8: `d[0]` on a digit slice that one u128 caller passes empty, Toom-3's lowest coefficient stored instead of
+accumulated (wrong only on the second call of the unbalanced split), `c + c2` instead of `wrapping_add` in `montgomery` (debug-only, needs an all-ones carry digit), `continue` on
+a zero exponent digit in `plain_modpow`, a reordered exhaustion test in `U32Digits::next_back`, `assign_from_slice` through a
+raw copy that keeps the old upper half of the last digit (reported under C15 as a new unsafe call, not under C09).
+Two more (C13-2, C13-11) are bodies the abstract interpreter cannot decide; they were reported while "undecided"
+made a check fail and are notes since section 12.4. The early exits in `bitand_neg_neg` (C07-12, C07-14) and the rounding
+comparison of `shr_round_down` made in the amount's own type (C07-6, C07-11, C10-6, and twice more in round 8) were misses
+until round 8 and are reported now (R9-carry-exit, R5-shift with the NumCast model).
 
 Checks added or generalised because a seed was missed at first: R3c panic-site table and checked negations (C14-2, C14-3,
 C01-5), R5 constructors (C09-3), BigUint^BigUint decision + oracle-side case split (C10-3, C12-2), R5 range terms (C18-1),
@@ -89,7 +98,13 @@ interpreter kept under C04 (C04-11), trailing-zero counts compared only with 0 i
 round 6: unsigned-to-signed casts need an ordering test (C08-11), a value computed from a rejected candidate is not a
 candidate (C18-12), near-balanced shapes in the cost recurrence (C20-13), the exact range of locally computed shift amounts
 (C16-13, C07-2), "zero is the empty sequence" as a path rule (C17-12), the constructors rule under C06 (C06-12), a
-trailing-zero count taken from one digit in gcd (C13-12).
+trailing-zero count taken from one digit in gcd (C13-12); from round 8: a carry loop's early exit must look at every pending
+carry (R9-carry-exit: C07-12, C07-14), the rounding comparison of `>>` in the amount's own type with the wrong fallback
+(C07-6, C07-11, C10-6, C07-16), control-dependent `&mut` mutation in the std/no_std taint and that rule scoped under C06/C11
+(C06-16), the balance of `<<` on the dividend and `>>` on the remainder around `div_rem_core`, counted across the call
+(R3-div-scaling: C03-17), deserialized integers as outside input of the operand-overflow rule, conversions establish no range (C17-16), and
+attribution: debug-only side effects under the arithmetic properties (C03-16), new checked negations under C16 (C16-17), the
+digit-step rule under C13 (C13-16), R1 under C19 (C19-16).
 """ % (n, "\n".join(rows), own, n, sib, len(missed), ", ".join(missed))
 s = open(V + "/DESIGN.md").read()
 i0 = s.index("## 11. Seeded changes")
